@@ -352,10 +352,18 @@ theorem step_release_inv {s : Server} (h : SyncInv s) (hw : WF s) (conn : Nat) :
 /-! ### `init`, `step`, `run` -/
 
 theorem SyncInv_init (caps : Caps) : SyncInv (init caps) := by
-  refine ⟨idxOK_empty, ?_, ?_, ?_, ?_, ?_, ?_, ?_, ?_, ?_, ?_, ?_, List.nodup_nil, ?_⟩
+  refine ⟨idxOK_empty, ?_, ?_, ?_, ?_, ?_, ?_, ?_, ?_, ?_, ?_, ?_, ?_, List.nodup_nil, ?_⟩
   · rintro c f (⟨q, sub, hq, _⟩ | ⟨q, g, sub, hq, _⟩)
     · simp [plainAt, init, getNode_nil] at hq
     · simp [sharedAt, init, getNode_nil] at hq
+  · intro c k hk f hf _
+    have hk : assocGet [(inlineID, 0)] c = some k := hk
+    simp only [assocGet] at hk
+    split at hk
+    · cases hk
+      have hf : f ∈ subKeys (getObj (init caps) 0) := hf
+      cases hf
+    · cases hk
   · intro k fs hfs
     have hs : (getObj (init caps) k).subs = [] := by
       match k with
@@ -786,5 +794,77 @@ theorem OpsSchedOK_append {s : Server} {ops : List Op} {op : Op} (h : OpsSchedOK
   | cons o rest ih =>
     obtain ⟨a, b⟩ := ih h.2
     exact ⟨⟨h.1, a⟩, b⟩
+
+/-! ### (b) the converse: the subscriptions of a registered session are in the index -/
+
+/-- **(b)**, unrestricted: every filter in the `subs` of a registered client object has its entry under that client
+    id in the index.  FALSE for `$share` filters, already without schedule ops (`IndexSyncConv_seq_false`). -/
+def IndexSyncConv (s : Server) : Prop :=
+  ∀ ci ∈ s.clients, ∀ f ∈ subKeys (getObj s ci.2), (ci.1, f) ∈ indexEntries s.topics
+
+instance (s : Server) : Decidable (IndexSyncConv s) := by unfold IndexSyncConv; infer_instance
+
+/-- **(b) for plain filters** (first level not `$share`, in any spelling) -/
+def IndexSyncPlain (s : Server) : Prop :=
+  ∀ ci ∈ s.clients, ∀ f ∈ subKeys (getObj s ci.2), shareKey f = false → (ci.1, f) ∈ indexEntries s.topics
+
+instance (s : Server) : Decidable (IndexSyncPlain s) := by unfold IndexSyncPlain; infer_instance
+
+theorem SyncInv.indexSyncPlain {s : Server} (h : SyncInv s) (hw : WF s) : IndexSyncPlain s := by
+  intro ci hci f hf hs
+  obtain ⟨c, i⟩ := ci
+  exact (h.ownB c i (assocGet_of_mem_nodup _ _ _ hw.clients_nodup hci) f hf hs).mem h.idx
+
+theorem IndexSyncPlain_step (s : Server) (op : Op) (h : SyncInv s) (hw : WF s) (hfresh : OpFresh s op)
+    (hok : SchedOK s op) : IndexSyncPlain (step s op).1 :=
+  (SyncInv_step s op h hw hfresh hok).indexSyncPlain (WF_step s op hw hfresh)
+
+theorem IndexSyncPlain_run_partial (caps : Caps) (ops : List Op) (hf : OpsFresh (init caps) ops)
+    (hok : OpsSchedOK (init caps) ops) : IndexSyncPlain (run (init caps) ops) :=
+  (SyncInv_run caps ops hf hok).indexSyncPlain (WF_run caps ops hf)
+
+theorem IndexSyncPlain_run_seq (caps : Caps) (ops : List Op) (hseq : SeqOps ops) (hf : OpsFresh (init caps) ops) :
+    IndexSyncPlain (run (init caps) ops) :=
+  IndexSyncPlain_run_partial caps ops hf (hseq.schedOK caps ops hf)
+
+/-- the unrestricted (b), for every history without schedule ops: false -/
+def IndexSyncConv_seq_histories : Prop :=
+  ∀ (caps : Caps) (ops : List Op), SeqOps ops → OpsFresh (init caps) ops → IndexSyncConv (run (init caps) ops)
+
+/-- `$share/g/a`, `$SHARE/g/a`: two keys of the session's subscription map, ONE entry of the index (the first level
+    is compared case-insensitively); UNSUBSCRIBE of the first spelling removes the entry, the session keeps the second -/
+def aliasHistory : List Op :=
+  [.connect 1 { ver := 5, id := [120], sei := some 100 },
+   .recv 1 (.subscribe 1 0 [{ filter := [36, 115, 104, 97, 114, 101, 47, 103, 47, 97] }]),
+   .recv 1 (.subscribe 2 0 [{ filter := [36, 83, 72, 65, 82, 69, 47, 103, 47, 97] }]),
+   .recv 1 (.unsubscribe 3 [[36, 115, 104, 97, 114, 101, 47, 103, 47, 97]])]
+
+theorem IndexSyncConv_alias_counterexample : ¬ IndexSyncConv (run (init {}) aliasHistory) := by decide
+
+theorem IndexSyncConv_seq_false : ¬ IndexSyncConv_seq_histories :=
+  fun h => IndexSyncConv_alias_counterexample (h {} aliasHistory (by decide) (by decide))
+
+/-- the index holds nothing, the session still lists `$SHARE/g/a` … -/
+example : indexEntries (run (init {}) aliasHistory).topics = [] := by decide
+example : subKeys (getObj (run (init {}) aliasHistory) 1) = [[36, 83, 72, 65, 82, 69, 47, 103, 47, 97]] := by decide
+/-- … and a resumed session (Clean Start 0) subscribes to it again -/
+example : indexEntries (run (init {}) (aliasHistory ++
+    [.connect 2 { ver := 5, id := [120], clean := false, sei := some 100 }])).topics =
+    [([120], [36, 83, 72, 65, 82, 69, 47, 103, 47, 97])] := by decide
+
+/-- UNSUBSCRIBE does not validate its filters: `$share/g` (no topic filter after the group) addresses the entry of
+    `$share/g/g`, removes it and is answered with reason code 0x00; the session keeps `$share/g/g` -/
+def shortShareHistory : List Op :=
+  [.connect 1 { ver := 5, id := [120], sei := some 100 },
+   .recv 1 (.subscribe 1 0 [{ filter := [36, 115, 104, 97, 114, 101, 47, 103, 47, 103] }]),
+   .recv 1 (.unsubscribe 3 [[36, 115, 104, 97, 114, 101, 47, 103]])]
+
+example : ¬ IndexSyncConv (run (init {}) shortShareHistory) := by decide
+example : indexEntries (run (init {}) shortShareHistory).topics = [] := by decide
+example : (step (run (init {}) (shortShareHistory.take 2)) (.recv 1 (.unsubscribe 3 [[36, 115, 104, 97, 114, 101, 47, 103]]))).2 =
+    [.wrote 1 (.unsuback 5 3 [0])] := by decide
+/-- (a) is not affected -/
+example : IndexSync (run (init {}) aliasHistory) := by decide
+example : IndexSync (run (init {}) shortShareHistory) := by decide
 
 end Mochi.Broker
